@@ -1,10 +1,49 @@
 (** C14 -- Imported modules are namespaced: no name capture in either direction.
-    PARTIAL: the renaming and splicing theorems below are proved; "moving definitions into a module does not change the
-    program's behaviour" needs the simulation theorem S of DESIGN.md (behaviour is invariant under an injective
-    renaming of names), which is not proved -- it is covered by the split-equiv metamorphic stream. *)
-From Pakhi Require Import Base Float64 Syntax Tables Lexer Parser.
-From Pakhi.Proofs Require Import Modules.
+    The token-level theorems below say what an import does to the module's tokens (every identifier that is not a
+    built-in function or the platform constant becomes alias/name, nothing else changes, the tokens are spliced after the
+    import's terminator).  C14_qualified_module_code_behaves_like_the_original (Proofs/Compose.v, from the generalised
+    simulation Sim2.v) is the semantic half: a statement vector whose names are all qualified by an alias in that way --
+    and whose line/file metadata is anything at all -- runs exactly like the original: same output, same final world, same
+    result, errors of the same kind and payload located at the mapped position; for every program, fuel, world and pair
+    of collection schedules.  So a module's code refers to its own definitions whatever the alias, and moving definitions
+    into a module and qualifying their uses cannot change behaviour.  What remains tied by the split-equiv stream only:
+    that the parser's expansion of a whole import graph IS this renaming applied to the spliced statement vector. *)
+From Pakhi Require Import Base Float64 Syntax Tables Lexer Parser Interp.
+From Pakhi.Proofs Require Import Modules WF Sim2Defs Sim2 Compose.
 Local Open Scope nat_scope.
+
+Theorem C14_qualified_module_code_behaves_like_the_original : forall alias pi code platform w fuel schedA schedB,
+  code_ok code -> code <> [] ->
+  match fst (run (map (smap (qualify alias) pi) code) fuel schedA 0 (init_machine platform w)), fst (run code fuel schedB 0 (init_machine platform w)) with
+  | OutOfFuel, _ | _, OutOfFuel => True
+  | Ok nA, Ok nB => m_out nA = m_out nB ++ [] /\ m_world nA = m_world nB
+  | Err eA, Err eB =>
+      e_kind eA = e_kind eB /\ e_tag eA = e_tag eB /\ e_out eA = e_out eB ++ [] /\
+      (mkPos (e_line eA) (e_file eA) = pi (mkPos (e_line eB) (e_file eB)) \/
+       (e_kind eB = EUnexpected /\ e_line eA = e_line eB /\ e_file eA = e_file eB))
+  | Panic sA, Panic sB => sA = sB
+  | _, _ => False
+  end.
+Proof. exact module_qualification_invisible. Qed.
+Print Assumptions C14_qualified_module_code_behaves_like_the_original.
+
+(* the renaming: injective, leaves built-in functions and the platform constant alone, never produces a built-in name *)
+Theorem C14_qualification_is_a_faithful_renaming : forall alias,
+  (forall x y, qualify alias x = qualify alias y -> x = y) /\
+  (forall x, is_builtin (qualify alias x) = is_builtin x) /\
+  (forall x, is_builtin x = true -> qualify alias x = x) /\
+  qualify alias platform_const = platform_const.
+Proof. intros alias. repeat split; [apply qualify_inj|apply qualify_builtin|apply qualify_builtin_fix]. Qed.
+Print Assumptions C14_qualification_is_a_faithful_renaming.
+
+(* the general statement: ANY injective renaming that fixes the built-in names and the platform constant *)
+Theorem C14_any_faithful_renaming_is_invisible : forall rho pi code platform w fuel schedA schedB,
+  code_ok code -> code <> [] ->
+  (forall x y, rho x = rho y -> x = y) -> (forall x, is_builtin (rho x) = is_builtin x) -> (forall x, is_builtin x = true -> rho x = x) ->
+  rho platform_const = platform_const ->
+  same_end2 pi [] (fst (run (map (smap rho pi) code) fuel schedA 0 (init_machine platform w))) (fst (run code fuel schedB 0 (init_machine platform w))).
+Proof. exact rename_invisible. Qed.
+Print Assumptions C14_any_faithful_renaming_is_invisible.
 
 Theorem C14_renaming_touches_exactly_identifiers : forall alias ts pi,
   length (prepend_names ts alias pi) = length ts /\
